@@ -713,7 +713,18 @@ def design_model_check(tier, log):
                          properties=["Terminates"], workers=8, timeout=3000, heap="4g") if tier != "quick" else None
     if dead is not None and not dead["ok"]:
         return {"error": "DEAD: %s\n%s" % (tlc.violated(dead["out"]), dead["out"][-1500:])}
-    return {"states": r["stats"]["distinct"], "transitions": r["stats"]["generated"], "n": lits["N"]}
+    blits = {k: v for k, v in lits.items() if k != "DEAD"}
+    blits["HORIZON"] = 40
+    b = tlc.run_model("MC_Backward", blits, {k: _SetOfTuples(v) for k, v in defs.items()}, "mcbwd",
+                      invariants=["OkMeansClauses", "FailHasReason", "Dated"], properties=["Terminates"],
+                      workers=8, timeout=3000, heap="4g")
+    if not b["ok"]:
+        return {"error": "MC_Backward %s\n%s" % (tlc.violated(b["out"]), b["out"][-1500:])}
+    log("MC_Backward N=%d: %d states, %d transitions: terminates, deterministic, all backward clauses hold (%.0fs)"
+        % (lits["N"], b["stats"]["distinct"], b["stats"]["generated"], b["wall"]))
+    return {"states": r["stats"]["distinct"] + b["stats"]["distinct"],
+            "transitions": r["stats"]["generated"] + b["stats"]["generated"], "n": lits["N"],
+            "forward": r["stats"], "backward": b["stats"]}
 
 
 class _SetOfTuples:
@@ -722,17 +733,30 @@ class _SetOfTuples:
 
 
 def design_drift(cases, log, limit):
-    """replay the recorded forward executions against the machine of Forward.tla (row by row)"""
+    import threading
+    out = {}
+    ths = [threading.Thread(target=lambda d=d, m=m: out.update({d: _design_drift(cases, log, limit, d, m)}))
+           for d, m in (("fwd", "ForwardTrace"), ("bwd", "BackwardTrace"))]
+    for t in ths:
+        t.start()
+    for t in ths:
+        t.join()
+    return out
+
+
+def _design_drift(cases, log, limit, direction, module):
+    """replay the recorded executions against the machine of Forward.tla / Backward.tla (row by row)"""
     fwd = [{"id": c["id"], "I": c["I"], "R": {"out": c["R"]["out"], "start": c["R"]["start"], "end": c["R"]["end"],
                                               "rows": c["R"]["rows"]}}
-           for c in cases if c["I"]["dir"] == "fwd" and c["R"]["out"] in ("ok", "RuntimeError") and not c["R"]["overflow"]]
+           for c in cases if c["I"]["dir"] == direction and c["R"]["out"] in ("ok", "RuntimeError")
+           and not c["R"]["overflow"] and not (direction == "bwd" and any(t["fstart"] != MISSING for t in c["I"]["tasks"]))]
     fwd = fwd[:limit]
     if not fwd:
         return {"replayed": 0}
-    jobs = 6
+    jobs = 4
     per = max(50, min(1500, -(-len(fwd) // jobs)))
     batches = [fwd[i:i + per] for i in range(0, len(fwd), per)]
-    wd, mod = tlc.prepare_judge("ForwardTrace", {"HORIZON": 400}, "fwt")
+    wd, mod = tlc.prepare_judge(module, {"HORIZON": 70}, "fwt")
     import shutil
     from concurrent.futures import ThreadPoolExecutor
     kinds, states, ex = {}, 0, []
@@ -765,8 +789,8 @@ def design_drift(cases, log, limit):
                     ex.append({"case": t[1], "what": t[2]})
     finally:
         shutil.rmtree(wd, ignore_errors=True)
-    log("design replay (Forward.tla): %d forward executions replayed step by step, %d machine states, drift %s"
-        % (len(fwd), states, kinds or "none"))
+    log("design replay (%s): %d %s executions replayed step by step, %d machine states, drift %s"
+        % (module, len(fwd), direction, states, kinds or "none"))
     return {"replayed": len(fwd), "machine_states": states, "drift": kinds, "examples": ex}
 
 
@@ -806,7 +830,7 @@ def evidence(prop, res):
         "transitions": cov["judge_states"] + ((cov.get("mc") or {}).get("transitions") or 0),
         "traces_validated_against_impl": cov["cases"],
         "evaluations": cov["cases"], "distinct_nontrivial": cov["nontrivial"],
-        "design_model": {"module": "spec/MC_Forward.tla (Forward.tla)", "result": cov.get("mc"),
+        "design_model": {"module": "spec/MC_Forward.tla (Forward.tla), spec/MC_Backward.tla (Backward.tla)", "result": cov.get("mc"),
                          "checked": "termination (liveness under WF), at most one successor per state, "
                                     "out=ok => every forward clause of Sched.tla, out=ok => schedulable, "
                                     "out=fail => a reason exists"},
